@@ -32,6 +32,8 @@ def g_dir():
     G.append(Grammar('pal', ['S'], ['a', 'b'], 'S', [('S', ['a', 'S', 'a']), ('S', ['b'])], note='centre-marked nesting'))
     G.append(Grammar('trail', ['S', 'A'], ['a', 'b'], 'S', [('S', ['a', 'A']), ('S', ['b', 'A', 'b']), ('A', []), ('A', ['a', 'A'])], note='trailing nullable with lookahead-dependent reduce'))
     G.append(Grammar('interl', ['L', 'I'], ['a', 'b'], 'L', [('L', ['I']), ('I', ['a']), ('L', ['L', 'I']), ('I', ['b'])], note='rules of different nonterminals interleaved: declaration order differs from the order sorted by left side'))
+    G.append(Grammar('nulfirst', ['S', 'B', 'X', 'N'], ['b', 'c', 'd', 'n'], 'S', [('S', ['B', 'X', 'd']), ('B', ['b']), ('X', []), ('X', ['N', 'c']), ('N', []), ('N', ['n'])],
+                     note='a nullable rule declared before a rule that starts with another nullable nonterminal; FIRST of the tail is a lookahead source'))
     G.append(Grammar('e123', ['S', 'P'], ['a', 'b', 'c'], 'S', [('S', ['P', 'b', 'c'], {'f': 'e1'}), ('S', ['a', 'P', 'c'], {'f': 'e2'}), ('S', ['c', 'a', 'P'], {'f': 'e3'}), ('P', ['b']), ('P', ['a', 'a'])], note='helper functors _e1.._e3 and default functors'))
     return G
 
